@@ -147,7 +147,7 @@ def run_replay(path):
     except subprocess.TimeoutExpired:
         return None, 'replay timed out'
     out = (p.stdout + p.stderr).strip()
-    if p.returncode == 10:
+    if p.returncode in (10, 11):
         return True, out
     if p.returncode == 0:
         return False, out
